@@ -69,6 +69,13 @@ pub use {
     viewer::Viewer,
 };
 
+/// Verification hooks: access to crate-private helpers.
+#[cfg(scad_tree_verif)]
+pub mod verif {
+    pub use crate::triangulate::{in_triangle, is_ccw};
+    pub use scad_tree_math::verif::take as take_trig_log;
+}
+
 /// Wraps a `Vec<u64>`.
 #[derive(Clone, PartialEq, Default)]
 pub struct Indices {
